@@ -20,7 +20,6 @@ import re
 import threading
 
 import vlib
-import langlib
 
 MUTATORS = {"set", "cset", "append", "insert", "pop", "remove", "extend", "reverse", "sort", "clear", "delete",
             "update", "setdefault", "setattr", "sadd", "each"}
@@ -187,6 +186,7 @@ class Driver:
         self.cx.run([self.bin, "apply", "-in", inp, "-out", out], timeout=1500)
         res = {r["id"]: r for r in vlib.read_ndjson(out)}
         os.remove(inp)
+        os.remove(out)
         # a worker that was starved (hang / script timeout) or died is given one more chance, alone
         again = [r for r in rows if failed(res.get(r["id"]))]
         if again and len(again) <= 50 and tag != "retry":
@@ -196,53 +196,85 @@ class Driver:
         return res
 
 
-def tlc_validate(cx, rows, prefix):
-    """Replay observed histories through the spec. rows: {id, steps, obs}. Returns (mismatches{id: (step, exp)}, unknown{id: step})."""
-    nsh = min(vlib.NCPU, 12)
-    slim = [{"id": r["id"], "steps": r["steps"], "obs": [{"r": o["r"], "ch": o["ch"]} for o in r["obs"]]} for r in rows]
-    paths = langlib.shard_cases(cx, slim, nsh, prefix)
-    results = [None] * len(paths)
-    errors = []
+class TraceSink:
+    """Rows {id, steps, obs} for ContainersCheck, written round-robin into shard files as they arrive."""
 
-    def work(k):
-        try:
-            results[k] = cx.tlc("ContainersCheck", env={"VERIF_HISTS": paths[k]}, workers=1,
-                                name="%s_%d" % (prefix, k), heap="3g")
-        except Exception as e:  # noqa
-            errors.append(e)
-    ths = [threading.Thread(target=work, args=(k,)) for k in range(len(paths))]
-    for t in ths:
-        t.start()
-    for t in ths:
-        t.join()
-    if errors:
-        raise errors[0]
-    mism, unknown = {}, {}
-    for r in results:
-        cx.tlc_must_pass(r, "ContainersCheck")
-        for ln in r.lines:
-            ln = ln.strip()
-            m = re.match(r'^<<"MISMATCH", (-?\d+), (\d+), "(.*)">>$', ln)
-            if m:
-                mism[int(m.group(1))] = (int(m.group(2)), json.loads(unq(m.group(3))))
-                continue
-            m = re.match(r'^<<"UNKNOWN", (-?\d+), (\d+)>>$', ln)
-            if m:
-                unknown[int(m.group(1))] = int(m.group(2))
-    return mism, unknown
+    def __init__(self, cx, prefix, nshards):
+        self.cx = cx
+        self.prefix = prefix
+        self.paths = [cx.path("%s.shard%d.ndjson" % (prefix, k)) for k in range(nshards)]
+        self.files = [open(p, "w") for p in self.paths]
+        self.where = {}      # id -> (shard, leg, mode)
+        self.n = 0
+
+    def add(self, rid, steps, obs, leg, mode):
+        k = self.n % len(self.files)
+        self.n += 1
+        row = {"id": rid, "steps": steps, "obs": [{"r": o["r"], "ch": o["ch"]} for o in obs]}
+        self.files[k].write(json.dumps(row, separators=(",", ":")) + "\n")
+        self.where[rid] = (k, leg, mode)
+
+    def fetch(self, rid):
+        k, leg, mode = self.where[rid]
+        with open(self.paths[k]) as f:
+            for ln in f:
+                if ln.startswith('{"id":%d,' % rid):
+                    r = json.loads(ln)
+                    return leg, mode, r["steps"], r["obs"]
+        raise KeyError(rid)
+
+    def validate(self):
+        """Replay every row through the spec: (mismatches {id: (step, expected)}, unknown {id: step})."""
+        for f in self.files:
+            f.close()
+        cx = self.cx
+        paths = [p for p in self.paths if os.path.getsize(p) > 0]
+        results = [None] * len(paths)
+        errors = []
+
+        def work(k):
+            try:
+                results[k] = cx.tlc("ContainersCheck", env={"VERIF_HISTS": paths[k]}, workers=1,
+                                    name="%s_%d" % (self.prefix, k), heap="2g", timeout=2400)
+            except Exception as e:  # noqa
+                errors.append(e)
+        ths = [threading.Thread(target=work, args=(k,)) for k in range(len(paths))]
+        for t in ths:
+            t.start()
+        for t in ths:
+            t.join()
+        if errors:
+            raise errors[0]
+        mism, unknown = {}, {}
+        for r in results:
+            cx.tlc_must_pass(r, "ContainersCheck")
+            for ln in r.lines:
+                ln = ln.strip()
+                m = re.match(r'^<<"MISMATCH", (-?\d+), (\d+), "(.*)">>$', ln)
+                if m:
+                    mism[int(m.group(1))] = (int(m.group(2)), json.loads(unq(m.group(3))))
+                    continue
+                m = re.match(r'^<<"UNKNOWN", (-?\d+), (\d+)>>$', ln)
+                if m:
+                    unknown[int(m.group(1))] = int(m.group(2))
+            r.lines = r.out = None
+        return mism, unknown
 
 
 def simulate(cx, simlen, nsim, nproc):
     """tlc -simulate in nproc single-worker processes (one seed, different salts: the workers of one
-    process draw identical numbers)."""
+    process draw identical numbers). Returns one list of raw HIST lines per process."""
     results = [None] * nproc
     errors = []
 
     def work(k):
         try:
-            results[k] = cx.tlc("ContainersGen", cfg_text=gen_cfg("sim", simlen, salt=k + 1),
-                                simulate="num=%d" % (nsim // nproc), depth=simlen + 2, workers=1,
-                                name="sim_%d" % k, timeout=2400, heap="2g")
+            r = cx.tlc("ContainersGen", cfg_text=gen_cfg("sim", simlen, salt=k + 1),
+                       simulate="num=%d" % (nsim // nproc), depth=simlen + 2, workers=1,
+                       name="sim_%d" % k, timeout=2400, heap="2g")
+            cx.tlc_must_pass(r, "ContainersGen (simulate)")
+            results[k] = [ln for ln in r.lines if ln.startswith('<<"HIST"')]
+            r.lines = r.out = None
         except Exception as e:  # noqa
             errors.append(e)
     ths = [threading.Thread(target=work, args=(k,)) for k in range(nproc)]
@@ -252,156 +284,182 @@ def simulate(cx, simlen, nsim, nproc):
         t.join()
     if errors:
         raise errors[0]
-    hists = []
-    for r in results:
-        cx.tlc_must_pass(r, "ContainersGen (simulate)")
-        hists += parse_hist_lines(r.lines)
-        r.lines = r.out = None
-    return hists
+    return results
+
+
+def chunks(seq, n):
+    for i in range(0, len(seq), n):
+        yield seq[i:i + n]
+
+
+class Tally:
+    def __init__(self):
+        self.suspects = []       # (leg, id, mode, step, steps, expected entry, observed entry)
+        self.harness_fail = []   # (leg, id, steps, driver answer)
+        self.distinct = set()
+        self.nontriv = set()
+        self.steps_api = self.steps_scr = 0
+        self.n_alias = self.n_bound = 0
+        self.kinds = {}
+        self.ops = set()
+
+    def account(self, steps, o):
+        api = o.get("api") or []
+        self.steps_api += len(api)
+        self.steps_scr += len(o["scr"]) if o.get("scr") is not None else len(api)
+        key = hash(json.dumps(steps, sort_keys=True))
+        self.distinct.add(key)
+        al, bd = features(steps, api)
+        self.n_alias += al
+        self.n_bound += bd
+        if al or bd:
+            self.nontriv.add(key)
+        for st in steps:
+            self.ops.add(st["op"])
 
 
 def run(cx):
     cx.level = "model_checking"
     quick = cx.quick()
     drv = Driver(cx, cx.go_build("containers"))
+    tl = Tally()
+    sink = TraceSink(cx, "trace", min(vlib.NCPU, 12))
+    CH = 6000      # histories per driver call (bounds the memory of the driver and of this process)
 
     # ------------------------------------------------------------------ leg M
     if quick:
         mc = cx.tlc("ContainersGen", cfg_text=gen_cfg("mc", 2, ("a", "b"), (-3, -1, 0, 2), props=True), workers=8, name="mc")
     else:
         mc = cx.tlc("ContainersGen", cfg_text=gen_cfg("mc", 3, ("a", "b"), (-3, -1, 0, 2), props=True), workers=12, name="mc",
-                    timeout=2400, heap="8g")
+                    timeout=2400, heap="6g")
     cx.tlc_must_pass(mc, "ContainersGen (leg M: the model violates one of its own properties or failed)")
     if mc.distinct < 1000:
         raise vlib.Inconclusive("leg M explored only %d states" % mc.distinct)
+    mc.lines = mc.out = None
     cx.log("leg M: %d transitions, %d distinct states, properties hold" % (mc.states_generated, mc.distinct))
 
     # ------------------------------------------------------------------ leg G: histories with expectations from the spec
+    next_id = [0]
+
+    def apply_expected(hists, leg, to_trace):
+        """Apply spec-generated histories (entries carry the expectation) and compare."""
+        rows = []
+        for h in hists:
+            rows.append({"id": next_id[0], "steps": [e["st"] for e in h]})
+            next_id[0] += 1
+        obs = drv.apply(rows, "g")
+        for row, h in zip(rows, hists):
+            o = obs.get(row["id"])
+            if failed(o):
+                tl.harness_fail.append((leg, row["id"], row["steps"], o))
+                continue
+            tl.account(row["steps"], o)
+            for mode in ("api", "scr"):
+                ob = o.get(mode)
+                if ob is None:
+                    continue
+                i = first_diff(h, ob)
+                if i is not None:
+                    tl.suspects.append((leg, row["id"], mode, i, row["steps"], h[i], ob[i] if i < len(ob) else None))
+                else:
+                    for e, x in zip(h, ob):
+                        if e["r"][0] == 1 and e["k"] != "anyerror" and e["k"] != x.get("k"):
+                            kk = "%s: spec %s / code %s" % (e["st"]["op"], e["k"], x.get("k"))
+                            tl.kinds[kk] = tl.kinds.get(kk, 0) + 1
+            if to_trace:
+                sink.add(row["id"], row["steps"], o["api"], leg, "api")
+
     if quick:    # start configuration + every single step (histories of length 3)
-        en = cx.tlc("ContainersGen", cfg_text=gen_cfg("enum", 1, ("a", "b"), (-4, -3, -1, 0, 2, 3)), workers=4, name="enum", heap="6g")
+        en = cx.tlc("ContainersGen", cfg_text=gen_cfg("enum", 1, ("a", "b"), (-4, -3, -1, 0, 2, 3)), workers=4, name="enum", heap="4g")
     else:        # start configuration + every pair of steps (histories of length 4)
         en = cx.tlc("ContainersGen", cfg_text=gen_cfg("enum", 2, ("a",), (-3, -1, 2)), workers=12, name="enum",
-                    timeout=2400, heap="8g")
+                    timeout=2400, heap="6g")
     cx.tlc_must_pass(en, "ContainersGen (enum)")
-    ghists = parse_hist_lines(en.lines)
-    n_enum = len(ghists)
+    elines = [ln for ln in en.lines if ln.startswith('<<"PRE"') or ln.startswith('<<"SUF"')]
     en.lines = en.out = None
+    pre = [ln for ln in elines if ln.startswith('<<"PRE"')]
+    suf = [ln for ln in elines if ln.startswith('<<"SUF"')]
+    n_enum = len(suf)
+    del elines
+    for part in chunks(suf, CH):
+        apply_expected(parse_hist_lines(pre + part), "Genum", False)
+    del suf
+    cx.log("leg G: %d enumerated histories applied, %d suspects" % (n_enum, len(tl.suspects)))
+
     simlen = 12 if quick else 40
-    nsim = 1500 if quick else 16000
-    shists = simulate(cx, simlen, nsim, 8 if quick else 12)
-    if n_enum < 500 or len(shists) < nsim // 2:
-        raise vlib.Inconclusive("generation produced too few histories (enum %d, sim %d)" % (n_enum, len(shists)))
-    ghists += shists
-    cx.log("leg G: %d enumerated + %d simulated histories" % (n_enum, len(shists)))
-    grows = [{"id": i, "steps": [e["st"] for e in h]} for i, h in enumerate(ghists)]
-    gobs = drv.apply(grows, "g")
-
-    suspects = []      # (leg, id, mode, step, steps, expected_entry, observed)
-    harness_fail = []
-    distinct = set()
-    nontriv = set()
-    steps_api = steps_scr = 0
-    kinds = {}
-    ops_seen = set()
-    n_alias = n_bound = 0
-
-    def account(steps, o):
-        nonlocal steps_api, steps_scr, n_alias, n_bound
-        api = o.get("api") or []
-        steps_api += len(api)
-        steps_scr += len(o["scr"]) if o.get("scr") is not None else len(api)
-        key = json.dumps(steps, sort_keys=True)
-        distinct.add(hash(key))
-        al, bd = features(steps, api)
-        n_alias += al
-        n_bound += bd
-        if al or bd:
-            nontriv.add(hash(key))
-        for st in steps:
-            ops_seen.add(st["op"])
-
-    for row, h in zip(grows, ghists):
-        o = gobs.get(row["id"])
-        if failed(o):
-            harness_fail.append(("G", row["id"], row["steps"], o))
-            continue
-        account(row["steps"], o)
-        for mode in ("api", "scr"):
-            ob = o.get(mode)
-            if ob is None:
-                continue
-            i = first_diff(h, ob)
-            if i is not None:
-                suspects.append(("G", row["id"], mode, i, row["steps"], h[i], ob[i] if i < len(ob) else None))
-            else:
-                for e, x in zip(h, ob):
-                    if e["r"][0] == 1 and e["k"] != "anyerror" and e["k"] != x.get("k"):
-                        kk = "%s: spec %s / code %s" % (e["st"]["op"], e["k"], x.get("k"))
-                        kinds[kk] = kinds.get(kk, 0) + 1
-    cx.log("leg G applied: %d histories, %d suspects" % (len(grows), len(suspects)))
+    nsim = 1500 if quick else 12000
+    n_sim = 0
+    samples = []
+    for plines in simulate(cx, simlen, nsim, 8 if quick else 12):
+        for part in chunks(plines, CH):
+            hs = parse_hist_lines(part)
+            n_sim += len(hs)
+            if len(samples) < 2 and hs:
+                samples.append({"history": [e["st"]["op"] for e in hs[0]][:20], "expected_last": show_obs(hs[0][-1])})
+            apply_expected(hs, "Gsim", True)     # also replayed by the trace spec (observed side)
+    if n_enum < 500 or n_sim < nsim // 2:
+        raise vlib.Inconclusive("generation produced too few histories (enum %d, sim %d)" % (n_enum, n_sim))
+    cx.log("leg G: %d simulated histories applied, %d suspects" % (n_sim, len(tl.suspects)))
 
     # ------------------------------------------------------------------ leg V: histories drawn in Go, validated by the trace spec
-    nv = 1500 if quick else 24000
+    nv = 1500 if quick else 16000
     vlen = 16 if quick else 48
-    vin = cx.path("v_hist.ndjson")
-    cx.run([drv.bin, "gen", "-seed", str(cx.seed), "-n", str(nv), "-len", str(vlen), "-out", vin, "-base", "2000000"])
-    vrows = [r for r in vlib.read_ndjson(vin) if r.get("steps")]
-    if len(vrows) < nv // 2:
-        raise vlib.Inconclusive("the Go generator produced %d of %d histories" % (len(vrows), nv))
-    vobs = drv.apply(vrows, "v")
-    trows = []
-    by_id = {}
-    for row in vrows:
-        o = vobs.get(row["id"])
-        if failed(o):
-            harness_fail.append(("V", row["id"], row["steps"], o))
-            continue
-        account(row["steps"], o)
-        trows.append({"id": row["id"], "steps": row["steps"], "obs": o["api"]})
-        by_id[row["id"]] = ("V", "api", row["steps"], o["api"])
-        if o.get("scr") is not None:
-            trows.append({"id": row["id"] + 1000000, "steps": row["steps"][:len(o["scr"])], "obs": o["scr"]})
-            by_id[row["id"] + 1000000] = ("V", "scr", row["steps"], o["scr"])
-    # the simulated histories of G are validated by the trace spec as well (observed side only)
-    for row in grows[n_enum:]:
-        o = gobs.get(row["id"])
-        if o and o.get("api") and not (o.get("apierr") or o.get("screrr")):
-            trows.append({"id": row["id"], "steps": row["steps"], "obs": o["api"]})
-            by_id[row["id"]] = ("Gsim", "api", row["steps"], o["api"])
-    # negative self-test: a corrupted observation must be rejected
+    n_v = 0
     probe = None
-    for r in trows:
-        for i, ob in enumerate(r["obs"]):
-            if ob["r"][0] == 0 and len(ob["r"]) >= 3 and ob["r"][1] == 1:
-                bad = json.loads(json.dumps(r))
-                bad["id"] = -1
-                bad["obs"][i]["r"][2] += 1
-                probe = bad
-                break
-        if probe:
-            break
-    if probe:
-        trows.append(probe)
-    mism, unknown = tlc_validate(cx, trows, "trace")
+    for base in range(0, nv, CH):
+        cnt = min(CH, nv - base)
+        vin = cx.path("v_hist.ndjson")
+        cx.run([drv.bin, "gen", "-seed", str(cx.seed * 7919 + base), "-n", str(cnt), "-len", str(vlen), "-out", vin,
+                "-base", str(2000000 + base)])
+        vrows = [r for r in vlib.read_ndjson(vin) if r.get("steps")]
+        vobs = drv.apply(vrows, "v")
+        for row in vrows:
+            o = vobs.get(row["id"])
+            if failed(o):
+                tl.harness_fail.append(("V", row["id"], row["steps"], o))
+                continue
+            n_v += 1
+            tl.account(row["steps"], o)
+            sink.add(row["id"], row["steps"], o["api"], "V", "api")
+            if o.get("scr") is not None:
+                sink.add(row["id"] + 1000000, row["steps"][:len(o["scr"])], o["scr"], "V", "scr")
+            if len(samples) < 4:
+                samples.append({"history": [st["op"] for st in row["steps"]][:24]})
+            if probe is None:
+                # negative self-test: a corrupted observation must be rejected by the trace spec
+                for i, ob in enumerate(o["api"]):
+                    if ob["r"][0] == 0 and len(ob["r"]) >= 3 and ob["r"][1] == 1:
+                        bad = json.loads(json.dumps(o["api"]))
+                        bad[i]["r"][2] += 1
+                        probe = bad
+                        sink.add(-1, row["steps"], bad, "probe", "api")
+                        break
+    if n_v < nv // 2:
+        raise vlib.Inconclusive("the Go generator produced %d of %d histories" % (n_v, nv))
+    n_traces = sink.n - (1 if probe else 0)
+    mism, unknown = sink.validate()
     if probe and -1 not in mism:
         raise vlib.Inconclusive("negative self-test: the trace spec accepted a corrupted observation")
     mism.pop(-1, None)
+    skipped = 0
     for hid, (step, exp) in sorted(mism.items()):
-        leg, mode, steps, ob = by_id[hid]
-        suspects.append((leg, hid, mode, step, steps, exp, ob[step] if step < len(ob) else None))
-    skipped = sum(len(by_id[h][2]) - s for h, s in unknown.items() if h in by_id)
-    cx.log("leg V: %d histories (%d rows) validated by ContainersCheck, %d mismatches, %d histories left the model (%d steps skipped)" % (
-        len(vrows), len(trows), len(mism), len(unknown), skipped))
+        leg, mode, steps, ob = sink.fetch(hid)
+        tl.suspects.append((leg, hid, mode, step, steps, exp, ob[step] if step < len(ob) else None))
+    for hid, step in unknown.items():
+        skipped += len(sink.fetch(hid)[2]) - step
+    cx.log("leg V: %d Go-drawn histories; %d rows validated by ContainersCheck, %d mismatches, %d histories left the model (%d steps skipped)" % (
+        n_v, n_traces, len(mism), len(unknown), skipped))
 
     # ------------------------------------------------------------------ known findings: replay the pinned witnesses
     known = cx.known_findings()
     for f in known:
         w = f["witness"]
         o = drv.apply([{"id": 0, "steps": w["steps"]}], "known").get(0, {})
-        rows = [{"id": 0, "steps": w["steps"], "obs": o.get(m)} for m in ("api", "scr") if o.get(m)]
-        for k, r in enumerate(rows):
-            r["id"] = k
-        m2, _ = tlc_validate(cx, rows, "known") if rows else ({}, {})
+        ks = TraceSink(cx, "known_" + f["id"], 1)
+        for k, m in enumerate(("api", "scr")):
+            if o.get(m):
+                ks.add(k, w["steps"][:len(o[m])], o[m], "known", m)
+        m2 = ks.validate()[0] if ks.n else {}
         if m2 or o.get("k") in ("crash", "hang"):
             cx.report_known(f)
         else:
@@ -416,7 +474,7 @@ def run(cx):
 
     # ------------------------------------------------------------------ verdicts (re-execute before reporting)
     reported = {}
-    for leg, hid, mode, step, steps, exp, ob in suspects:
+    for leg, hid, mode, step, steps, exp, ob in tl.suspects:
         key = (mode, steps[step]["op"] if step < len(steps) else "?")
         if reported.get(key, 0) >= 2 or len(reported) >= 12:
             reported[key] = reported.get(key, 0) + 1
@@ -434,7 +492,7 @@ def run(cx):
         differs = o2 is None or o2["r"] != exp["r"] or (not exp.get("tr") and o2["ch"] != exp["ch"])
         if not (differs and (same or ob is None)):
             cx.notes.append("disagreement on history %s step %d (%s) not reproduced" % (hid, step, mode))
-            harness_fail.append((leg, hid, steps, {"unreproduced": True}))
+            tl.harness_fail.append((leg, hid, steps, {"unreproduced": True}))
             continue
         reported[key] = reported.get(key, 0) + 1
         script = cx.run([drv.bin, "script", "-in", _one(cx, steps[:step + 1])]).stdout.decode("utf8", "replace")
@@ -445,8 +503,8 @@ def run(cx):
                 json.dumps(show_obs(o2), ensure_ascii=False)[:300]),
             {"leg": leg, "mode": mode, "step": step, "steps": steps[:step + 1], "expected": exp, "observed": o2,
              "script": script})
-    if harness_fail and not cx.violations:
-        crashes = [h for h in harness_fail if h[3] and h[3].get("k") in ("crash", "hang")]
+    if tl.harness_fail and not cx.violations:
+        crashes = [h for h in tl.harness_fail if h[3] and h[3].get("k") in ("crash", "hang")]
         if crashes:
             leg, hid, steps, o = crashes[0]
             again = drv.apply([{"id": 0, "steps": steps}], "re").get(0, {})
@@ -454,43 +512,43 @@ def run(cx):
                 cx.violation("applying a container history kills or hangs the process: %s" % json.dumps(again)[:300],
                              {"leg": leg, "steps": steps, "observed": again})
         if not cx.violations:
-            leg, hid, steps, o = harness_fail[0]
+            leg, hid, steps, o = tl.harness_fail[0]
             raise vlib.Inconclusive("%d histories could not be applied / reproduced, e.g. leg %s id %s: %s" % (
-                len(harness_fail), leg, hid, json.dumps(o)[:400]))
+                len(tl.harness_fail), leg, hid, json.dumps(o)[:400]))
 
     # ------------------------------------------------------------------ evidence
-    for h in shists[:2]:
-        cx.sample({"history": [e["st"]["op"] for e in h][:20], "expected_last": show_obs(h[-1])})
-    for row in vrows[:2]:
-        cx.sample({"history": [s["op"] for s in row["steps"]][:24]})
-    if kinds:
+    for sm in samples:
+        cx.sample(sm)
+    if tl.kinds:
         cx.notes.append("error kinds that differ from the model's (raised-ness agrees; the property does not fix the kind): %s" % (
-            json.dumps(dict(sorted(kinds.items(), key=lambda kv: -kv[1])[:8]))))
+            json.dumps(dict(sorted(tl.kinds.items(), key=lambda kv: -kv[1])[:8]))))
     cx.cover.update({
-        "evaluations": steps_api + steps_scr,
-        "steps_applied_object_api": steps_api,
-        "steps_applied_script": steps_scr,
-        "histories": len(distinct),
-        "distinct_nontrivial": len(nontriv),
-        "histories_with_aliasing_step": n_alias,
-        "histories_with_boundary_index": n_bound,
+        "evaluations": tl.steps_api + tl.steps_scr,
+        "steps_applied_object_api": tl.steps_api,
+        "steps_applied_script": tl.steps_scr,
+        "histories": len(tl.distinct),
+        "distinct_nontrivial": len(tl.nontriv),
+        "histories_with_aliasing_step": tl.n_alias,
+        "histories_with_boundary_index": tl.n_bound,
         "enumerated_histories": n_enum,
-        "simulated_histories": len(shists),
-        "go_drawn_histories": len(vrows),
-        "traces_validated_against_impl": len(trows) - (1 if probe else 0),
+        "simulated_histories": n_sim,
+        "go_drawn_histories": n_v,
+        "traces_validated_against_impl": n_traces,
         "steps_outside_model_skipped": skipped,
-        "operations_exercised": sorted(ops_seen),
+        "operations_exercised": sorted(tl.ops),
         "model_states_leg_M": mc.distinct,
         "model_transitions_leg_M": mc.states_generated,
         "exhaustive": "leg M and the enumerated part of leg G: every history = one of 5 start configurations (aliased list, "
-                      "nested list, map holding a list, two sets, string + list) followed by every sequence of <= MaxLen steps "
-                      "over the enumerated alphabet (ContainersGen!Alphabet); the random parts are samples",
+                      "nested list, map holding a list, two sets, string + list; 2 steps each) followed by every sequence of "
+                      "<= MaxLen steps over the enumerated alphabet ContainersGen!Alphabet (leg M: MaxLen 2 quick / 3 thorough; "
+                      "leg G: 1 quick / 2 thorough); the random parts are samples",
         "rule": "histories over names a-d: enumerated by TLC (mode enum), drawn by tlc -simulate from the spec (type directed, "
-                "indices in [-len-2, len+2], values: small ints, halves, code-point strings, bools, nil, references) with the "
-                "expected result and projection delta of every step, and drawn in Go on the real objects (ints to 1e6, "
-                "multi-byte strings); each applied to real containers through the object API and as a script; "
-                "non-trivial = contains a mutation observed through two names or applied to the source/result of a "
-                "slice/copy, or an index equal to one of -len-2..-len, -1, 0, len-1..len+2",
+                "indices in [-len-2, len+2], values: small ints, halves, code-point strings, bools, nil, references; every "
+                "second copying step is followed by an in-place mutation of source or copy) with the expected result and "
+                "projection delta of every step, and drawn in Go on the real objects (ints to 1e6, multi-byte strings); "
+                "each applied to real containers through the object API and as a script; non-trivial = contains a mutation "
+                "observed through two names or applied to the source/result of a slice/copy, or an index equal to one of "
+                "-len-2..-len, -1, 0, len-1..len+2",
     })
     cx.assumptions += [
         "projection: run.Project (deep, by name) flattened; floats are multiples of 1/2; identity is observed through effects only",
